@@ -16,6 +16,11 @@
 /* witness tie: only active in the job that enforces function f (driver defines WIT_<f> 0/1) */
 #define WIT(f, x) (!WIT_##f || (x))
 
+/* ghost statement: after a loop contract has havocked a pointer variable, CBMC only knows the *assumed* equality
+ * p == q from the invariant, which its points-to analysis cannot use.  Re-assign the pointer; the assertion in front
+ * makes sure that this is a no-op. */
+#define BT_GHOST_REBIND(p, q) do { __CPROVER_assert((p) == (q), "ghost rebind is a no-op"); (p) = (q); } while (0)
+
 /* std::min / std::max on operands of one type */
 #define BT_MIN(a, b) ((b) < (a) ? (b) : (a))
 #define BT_MAX(a, b) ((a) < (b) ? (b) : (a))
@@ -34,7 +39,7 @@ bool nondet_bool(void);
 /* ---- stand-ins for <algorithm> loops over bytes.  Each has a contract that is enforced on the C body below
  * (unit 'prelude_*' of the property that uses it); callers use the contract only.  Their faithfulness to
  * libstdc++ is an assumed dependency.  The ghost index G_pre_j replaces a universal quantifier. */
-size_t G_pre_j;
+size_t G_pre_j, G_pre_j2, G_pre_j3;
 #ifndef BT_BYTES_MAX
 #define BT_BYTES_MAX 1024
 #endif
@@ -62,13 +67,16 @@ __CPROVER_assigns(__CPROVER_object_upto(p, n))
 uint8_t* bt_copy_u8(const uint8_t* first, size_t n, uint8_t* out)
 __CPROVER_requires(n <= BT_BYTES_MAX && __CPROVER_r_ok(first, n) && __CPROVER_rw_ok(out, n))
 __CPROVER_ensures(G_pre_j < n ==> out[G_pre_j] == first[G_pre_j])
+__CPROVER_ensures(G_pre_j2 < n ==> out[G_pre_j2] == first[G_pre_j2])
+__CPROVER_ensures(G_pre_j3 < n ==> out[G_pre_j3] == first[G_pre_j3])
 __CPROVER_ensures(__CPROVER_return_value == out + n)
 __CPROVER_assigns(__CPROVER_object_upto(out, n))
 #ifdef BT_COPY_BODY
 {
     for (size_t i = 0; i != n; ++i)
     __CPROVER_assigns(i, __CPROVER_object_upto(out, n))
-    __CPROVER_loop_invariant(i <= n && (G_pre_j < i ==> out[G_pre_j] == first[G_pre_j]))
+    __CPROVER_loop_invariant(i <= n && (G_pre_j < i ==> out[G_pre_j] == first[G_pre_j])
+                             && (G_pre_j2 < i ==> out[G_pre_j2] == first[G_pre_j2]) && (G_pre_j3 < i ==> out[G_pre_j3] == first[G_pre_j3]))
     __CPROVER_decreases(n - i)
         out[i] = first[i];
     return out + n;
